@@ -16,11 +16,11 @@ RULE = ("full grid: declared curves d in {no ~C section, 0..6} x data columns c 
         "the read succeeded")
 ASSUMPTIONS = [
     "a read that raises is not a 'successful read' and is counted, not judged, here (C09/C02 judge those)",
-    "cells never equal the NULL value; default mnemonic_case (upper)",
+    "cells equal the NULL value only in the 'nearnull' cases, where a non-index cell equal to NULL is expected as NaN and every other reading, however close to NULL, as itself; default mnemonic_case (upper)",
 ]
 EXHAUSTIVE = "the (d, c, r, engine, wrap width) grid described in the rule"
 REQUIRED = ["successful_reads", "cells_compared", "cases_more_columns_than_declared", "cases_fewer_columns_than_declared",
-            "cases_wrapped", "cases_no_curve_section", "nan_filled_curves_checked", "unnamed_extra_curves_checked", "cases_declared_delimiter"]
+            "cases_wrapped", "cases_no_curve_section", "nan_filled_curves_checked", "unnamed_extra_curves_checked", "cases_declared_delimiter", "cases_with_readings_next_to_null"]
 SOFT_DEADLINE = {"quick": 90, "thorough": 1200}
 LEVEL_TEXT = ("Exploration with a cell-by-cell oracle: coordinates are encoded in the values, so any shifted, merged or "
               "reordered column is visible wherever it happens.")
@@ -37,6 +37,21 @@ def curve_name(case, j, d):
 
 def cellv(i, j, neg=False):
     return ("-" if neg and j == 1 else "") + "%d.%03d" % (i + 1, j + 1)
+
+
+NEAR_NULL = ["-999.24", "-999.2501", "-999.26", "-999.25", "-999.249999", "-999.3", "999.25", "-999.2500"]
+
+
+def celltok(case, i, j):
+    """The token written for cell (i, j): its coordinates, or - with 'nearnull' - a reading next to (or equal to) the NULL -999.25."""
+    if case.get("nearnull") and (i + 2 * j) % 3 == 0:
+        return NEAR_NULL[(i * 7 + j) % len(NEAR_NULL)]
+    return cellv(i, j, bool(case.get("neg")))
+
+
+def cellwant(case, i, j):
+    x = float(celltok(case, i, j))
+    return float("nan") if (j > 0 and x == -999.25) else x
 
 
 def grid(tier):
@@ -67,6 +82,11 @@ def grid(tier):
                     if mc_wrap and c != d:
                         continue
                     yield {"d": d, "c": c, "r": 3, "engine": engine, "wrap": mc_wrap, "noise": None, "after": False, "digitnames": True}
+    for d, c in ((3, 3), (2, 4), (4, 2), (None, 3)):     # readings next to the NULL value are readings, not gaps
+        for r in (3, 5):
+            for engine in ("numpy", "normal"):
+                for wrap in (None, c if d == c else None):
+                    yield {"d": d, "c": c, "r": r, "engine": engine, "wrap": wrap, "noise": None, "after": False, "nearnull": True}
     for r in (19, 20, 21, 22, 23):           # around the sniffing window of 21 data lines
         for d, c in ((3, 3), (2, 4), (5, 3), (None, 2)):
             for engine in ("numpy", "normal"):
@@ -92,7 +112,7 @@ def random_case(rng, tier):
     return {"d": d, "c": c, "r": r, "engine": rng.choice(["numpy", "normal"]), "wrap": wrap,
             "noise": rng.choice([None, None, "blank", "comment"]) if wrap is None else None,
             "after": rng.random() < 0.3, "dlm": rng.choice([None, None, "COMMA", "TAB", "COMMA_PADDED"]) if wrap is None else None,
-            "neg": rng.random() < 0.3, "digitnames": rng.random() < 0.15}
+            "neg": rng.random() < 0.3, "digitnames": rng.random() < 0.15, "nearnull": rng.random() < 0.15}
 
 
 def build(case):
@@ -106,7 +126,7 @@ def build(case):
         for s in secs:
             if s["kind"] == "C":
                 s["items"] = [[curve_name(case, j, d), "U%d" % j, "", "tag%d" % j] for j in range(d)]
-    rows = [[cellv(i, j, neg) for j in range(c)] for i in range(r)]
+    rows = [[celltok(case, i, j) for j in range(c)] for i in range(r)]
     noise = {}
     if case["noise"] == "blank":
         noise = {"1": [""]}
@@ -170,9 +190,9 @@ def run_case(case, ctx):
                 V("surplus-column-not-unnamed:" + tag, "curve #%d for surplus column is named %r/%r" % (j, cu.original_mnemonic, cu.mnemonic), detail)
         data = np.asarray(cu.data)
         if j < c:
-            want = np.array([float(cellv(i, j, bool(case.get("neg")))) for i in range(r)])
+            want = np.array([cellwant(case, i, j) for i in range(r)])
             ctx.count("cells_compared", r)
-            if data.shape != want.shape or data.dtype.kind != "f" or not np.array_equal(data, want):
+            if data.shape != want.shape or data.dtype.kind != "f" or not np.array_equal(data, want, equal_nan=True):
                 V("cell-displaced:" + tag, "curve #%d holds %s, column %d of the data is %s" % (
                     j, _a(data), j, _a(want)), detail)
         else:
@@ -181,7 +201,9 @@ def run_case(case, ctx):
                 V("missing-column-not-nan-filled:" + tag, "declared curve #%d without a column holds %s, expected %d NaN" % (j, _a(data), r), detail)
     if case.get("dlm"):
         ctx.count("cases_declared_delimiter")
-    ctx.case_done([d, c, "r1" if r == 1 else "r2-5" if r <= 5 else "r>5", case["engine"], case["wrap"], case["noise"], case["after"], case.get("dlm"), case.get("neg"), case.get("digitnames")],
+    if case.get("nearnull"):
+        ctx.count("cases_with_readings_next_to_null")
+    ctx.case_done([d, c, "r1" if r == 1 else "r2-5" if r <= 5 else "r>5", case["engine"], case["wrap"], case["noise"], case["after"], case.get("dlm"), case.get("neg"), case.get("digitnames"), case.get("nearnull")],
                   nontrivial=r * c >= 2)
     if case["wrap"] or rel != "eq":
         ctx.sample({"case": case, "text": text, "keys": las.keys()}, limit=4)
